@@ -65,6 +65,31 @@ def confirm(d: Path):
         shutil.rmtree(wt, ignore_errors=True)
 
 
+def run_scratch(sid: str, tier: str):
+    """Same as run(), but against a scratch worktree through VERIF_REPO (safe while something else uses /repo)."""
+    d = SEEDED / sid
+    meta = json.loads((d / "meta.json").read_text())
+    prop = meta["property"]
+    wt = Path(tempfile.mkdtemp(prefix="seeded-wt-"))
+    shutil.rmtree(wt)
+    sh(["git", "-C", str(REPO), "worktree", "add", "--detach", str(wt), "HEAD"])
+    t0 = time.time()
+    try:
+        ap = sh(["git", "-C", str(wt), "apply", str(d / "patch.diff")])
+        if ap.returncode != 0:
+            raise SystemExit(f"{sid}: patch does not apply: {ap.stderr}")
+        env = dict(os.environ, VERIF_REPO=str(wt), VERIF_EVIDENCE_DIR=str(wt / "_ev"), VERIF_REPLAY_DIR=str(wt / "_rp"))
+        p = sh([str(VERIF / "bin/check"), prop, "--tier", tier], env=env, cwd=str(VERIF))
+        vio = [l for l in p.stdout.splitlines() if l.startswith("VIOLATION")]
+        cls = [l.strip() for l in p.stdout.splitlines() if l.strip().startswith("violation class=")]
+        return {"id": sid, "property": prop, "tier": tier, "mode": "scratch worktree via VERIF_REPO", "exit": p.returncode,
+                "caught": p.returncode == 1 and bool(vio), "wall_s": round(time.time() - t0, 1),
+                "first_violation": cls[0][:300] if cls else None, "tail": "" if vio else p.stdout[-400:]}
+    finally:
+        sh(["git", "-C", str(REPO), "worktree", "remove", "--force", str(wt)])
+        shutil.rmtree(wt, ignore_errors=True)
+
+
 def run(sid: str, tier: str):
     d = SEEDED / sid
     meta = json.loads((d / "meta.json").read_text())
@@ -83,6 +108,7 @@ def run(sid: str, tier: str):
         vio = [l for l in p.stdout.splitlines() if l.startswith("VIOLATION")]
         cls = [l.strip() for l in p.stdout.splitlines() if l.strip().startswith("violation class=")]
         res = {"id": sid, "property": prop, "tier": tier, "exit": p.returncode, "caught": p.returncode == 1 and bool(vio),
+               "mode": "applied to /repo, then git checkout -- .",
                "wall_s": round(time.time() - t0, 1), "first_violation": cls[0][:300] if cls else None,
                "tail": "" if vio else p.stdout[-300:]}
     finally:
@@ -103,6 +129,9 @@ def main():
         print(json.dumps(confirm(Path(a[1]).resolve()), indent=1))
         return
     tier = "quick"
+    scratch = "--scratch" in a
+    if scratch:
+        a.remove("--scratch")
     if "--tier" in a:
         i = a.index("--tier")
         tier = a[i + 1]
@@ -111,7 +140,7 @@ def main():
     out = SEEDED / "results.json"
     results = json.loads(out.read_text()) if out.exists() else {}
     for sid in ids:
-        r = run(sid, tier)
+        r = run_scratch(sid, tier) if scratch else run(sid, tier)
         results[f"{sid}:{tier}"] = r
         print(json.dumps(r))
         out.write_text(json.dumps(results, indent=1, sort_keys=True))
